@@ -229,7 +229,7 @@ namespace bxdecay0 {
   // static
   const std::string & dbd_gA::env_data_base_dir()
   {
-    static std::string _dbd_gA_data_root;
+    static thread_local std::string _dbd_gA_data_root;
     const char * env_key = "BXDECAY0_DBD_GA_DATA_DIR";
     if (std::getenv(env_key) != nullptr) {
       _dbd_gA_data_root = std::string(std::getenv(env_key));
